@@ -1,4 +1,5 @@
 import SJ.Proofs.TypedFloatScan
+import SJ.Proofs.ViaValueText
 import SJ.Proofs.LexTopF32
 import SJ.Proofs.LexTopParser
 /-!
@@ -21,6 +22,31 @@ open SJ SJ.Gen SJ.Model SJ.Model.Typed SJ.Model.Num SJ.Model.Lexical SJ.Spec.Iee
 open SJ.Proofs.Ieee SJ.Proofs.LexSplit SJ.Proofs.LexTopFloat SJ.Proofs.LexTopSpec SJ.Proofs.LexTopParser
 open SJ.Model.FromValue (intToF32 f64ToF32 numberF32 numberF64)
 open SJ.Proofs.NumLink (PartsWF numOfNRes)
+
+theorem all_of_isDigits (ds : Bytes) (h : IsDigits ds) : ds.all Spec.Decimal.isDigit = true := by
+  rw [List.all_eq_true]
+  intro c hc
+  have := h c hc
+  simp [Spec.Decimal.isDigit, this.1, this.2]
+
+/-- **the scanner's parts are well-formed** -/
+theorem scanNumber_partsWF (env : Env) (rest : Bytes) (pos : Nat)
+    (parts : Parts) (r : Bytes) (q : Nat) (h : scanNumber env rest pos = .ok parts r q) : PartsWF parts := by
+  obtain ⟨hd, hne, h0⟩ := SJ.Proofs.Typed.scanNumber_ok rest pos parts r q h
+  obtain ⟨hf, he⟩ := scanNumber_tail env rest pos parts r q h
+  refine ⟨all_of_isDigits _ hd, ?_, fun fds e => ⟨(hf fds e).1, all_of_isDigits _ (hf fds e).2⟩,
+    fun en eds e => ⟨(he en eds e).1, all_of_isDigits _ (he en eds e).2⟩⟩
+  cases hi : parts.int with
+  | nil => exact absurd hi hne
+  | cons d tl =>
+    cases tl with
+    | nil => rfl
+    | cons x xs =>
+      simp only [bne_iff_ne, ne_eq]
+      intro e
+      subst e
+      have := h0 _ hi
+      cases this
 
 /-- serde's `f32` visitor on a `ParserNumber` (`ParserNumber::visit`: `visit_u64` / `visit_i64`: `v as f32`;
     `visit_f64`: `v as f32`); `none` = the parser's `NumberOutOfRange` -/
